@@ -62,6 +62,10 @@ theorem good_andThen {α β : Type} {p : Parser α} {f : α → Parser β}
       simp only [PR.bind]
       exact (hf x r1).2 e h q
 
+theorem good_ite {α : Type} {c : Prop} [Decidable c] {p q : Parser α} (hp : Good p) (hq : Good q) :
+    Good (if c then p else q) := by
+  split <;> assumption
+
 /-! ### Primitive readers -/
 
 theorem readTail_append (n : Nat) :
@@ -286,10 +290,6 @@ theorem good_decodeExPayload (uuid data : List UInt8) : Good (decodeExPayload uu
         exact ⟨⟨[], rfl⟩, fun q => rfl⟩
       · intro e h; simp at h
 
-theorem good_ite {α : Type} {c : Prop} [Decidable c] {p q : Parser α} (hp : Good p) (hq : Good q) :
-    Good (if c then p else q) := by
-  split <;> assumption
-
 theorem good_kindOfId (hasEx : Bool) (i : Int) : Good (kindOfId hasEx i) := by
   unfold kindOfId
   exact good_ite (good_pure _) <| good_ite (good_pure _) <| good_ite (good_pure _) <|
@@ -335,25 +335,10 @@ theorem good_parseRest (k : Kind) : Good (parseRest k) := by
     exact good_andThen (good_pRaw 16) fun _ => good_andThen good_pData fun _ =>
       good_decodeExPayload _ _
 
-theorem good_pHeader (hl : Nat) : Good (pHeader hl) := by
-  intro inp
-  refine ⟨?_, ?_⟩
-  · intro x r h
-    unfold pHeader at h
-    by_cases hlt : inp.length < hl
-    · simp [hlt] at h
-    · simp only [hlt, if_false, PR.ok.injEq] at h
-      obtain ⟨_, rfl⟩ := h
-      have hn : hl ≤ inp.length := Nat.le_of_not_lt hlt
-      refine ⟨⟨inp.take hl, (List.take_append_drop hl inp).symm⟩, ?_⟩
-      intro q
-      unfold pHeader
-      have : ¬ (inp ++ q).length < hl := by simp; omega
-      simp only [this, if_false]
-      rw [List.drop_append_of_le_length hn]
-  · intro e h
-    unfold pHeader at h
-    by_cases hlt : inp.length < hl <;> simp [hlt] at h
+theorem good_pHeader (json : List UInt8 → Except Nat Int) : Good (pHeader json) := by
+  unfold pHeader
+  exact good_andThen (good_pRaw _) fun _ =>
+    good_ite (good_pure _) (good_andThen good_pStr fun _ => good_pure _)
 
 /-- A good parser that still needs more on the whole input needs more on every prefix. -/
 theorem Good.needMore_prefix {α : Type} {p : Parser α} (hp : Good p) {inp q : List UInt8}
